@@ -33,7 +33,12 @@ type vfCaseC04One struct {
 // operations whose trailing requests are fire-and-forget by design (their
 // result does not depend on every reply): a straddling cut may leave them
 // successful.
-var vfC04Tolerant = map[string]bool{"ReadDir": true, "Glob": true, "Walk": true, "F.WriteTo": true, "RemoveAll": true}
+// The same holds for reads that run past the end of the file: the result is
+// decided by the lowest-offset EOF, replies for higher offsets are irrelevant.
+// All of these return a listing or a content hash, so "equals the reference"
+// is real evidence that they obtained everything they needed.
+var vfC04Tolerant = map[string]bool{"ReadDir": true, "Glob": true, "Walk": true, "F.WriteTo": true, "RemoveAll": true,
+	"F.Read": true, "F.ReadAtPastEOF": true}
 
 // Glob is documented to ignore file system errors ("The only possible returned
 // error is ErrBadPattern"): it only has to return.
